@@ -436,6 +436,8 @@ class Run:
         for n in self.notes:
             self.log("note:", n)
         if self.violations:
+            # concrete failing inputs first
+            self.violations.sort(key=lambda v: not v["concrete"])
             for v in self.violations:
                 tail = "" if v["concrete"] else " no-failing-input-found"
                 print("VIOLATION property=%s replay=%s%s" % (self.pid, v["replay"], tail))
